@@ -192,6 +192,13 @@ def cases(ctx):
             out.append(["difference", sysi, versions.gen(rng, sysi), versions.malformed(rng, sysi)])
             out.append(["match", sysi, constraint_text(rng, sysi), versions.gen(rng, sysi) if rng.random() < 0.7 else versions.malformed(rng, sysi)])
             out.append(["setops", sysi, constraint_text(rng, sysi), constraint_text(rng, sysi)])
+    for _ in range(n * 2):
+        # mixed systems: a constraint of one system asked about a version parsed in another
+        sc, sv = rng.randrange(9), rng.randrange(9)
+        ct = rng.choice([b"", b"", b"*", b">=1.0", b"1.0.0", b"[1.0,2.0)"]) if rng.random() < 0.4 else constraint_text(rng, sc)
+        out.append(["xmatch", sc, ct, sv, versions.gen(rng, sv)])
+        if rng.random() < 0.3:
+            out.append(["xcompare", sc, versions.gen(rng, sc), sv, versions.gen(rng, sv)])
     for sysi in range(9):
         cs = versions.cores(rng, sysi)
         for _ in range(n):
@@ -303,13 +310,32 @@ def run_total(ctx, cs):
     return results
 
 
+def confirm_hangs(ctx, cs, res):
+    """A hang verdict depends on the clock: every case answered ("hang") is run again, alone in a fresh process,
+    with ten times the limit; only a second hang is kept (a busy machine must not produce an alarm)."""
+    idx = [i for i, r in enumerate(res) if r and r.startswith('("hang"')][:40]
+    if not idx:
+        return
+    env = dict(os.environ, VERIF_WATCHDOG_SCALE="10")
+    import concurrent.futures
+    def again(i):
+        rc, out, err = lib.run_side("implrun", ["total\t" + sx(cs[i])], timeout=900, env=env)
+        return out[0] if rc == 0 and out else '("crash")'
+    with concurrent.futures.ThreadPoolExecutor(4) as ex:
+        second = list(ex.map(again, idx))
+    for i, r2 in zip(idx, second):
+        ctx.count("hang:confirmed" if r2.startswith('("hang"') else "hang:not-confirmed(load)")
+        res[i] = r2
+
+
 def run(ctx):
     cs = cases(ctx)
     res = run_total(ctx, cs)
+    confirm_hangs(ctx, cs, res)
     seen = set()
     for c, r in zip(cs, res):
         entry = c[0] if isinstance(c[0], str) else c[0]
-        key = entry if entry not in ("parse", "pconstraint", "psetconstraint", "syscompare", "difference", "match", "setops") \
+        key = entry if entry not in ("parse", "pconstraint", "psetconstraint", "syscompare", "difference", "match", "setops", "xmatch", "xcompare") \
             else "%s:%s" % (entry, versions.SYSTEMS[c[1]])
         cls = parse_sx(r)[0].decode() if r and r.startswith("(") else "crash"
         ctx.count("%s:%s" % (key, cls))
@@ -344,6 +370,7 @@ def run(ctx):
 def oracle_only(ctx):
     cs = cases(ctx)
     res = run_total(ctx, cs)
+    confirm_hangs(ctx, cs, res)
     for c, r in zip(cs, res):
         cls = parse_sx(r)[0].decode() if r and r.startswith("(") else "crash"
         if cls in ("panic", "hang", "crash"):
